@@ -26,6 +26,7 @@ import (
 	"github.com/idena-network/idena-go/blockchain/types"
 	"github.com/idena-network/idena-go/blockchain/validation"
 	"github.com/idena-network/idena-go/common"
+	"github.com/idena-network/idena-go/core/appstate"
 	"github.com/idena-network/idena-go/crypto"
 	"github.com/idena-network/idena-go/ipfs"
 	"github.com/idena-network/idena-go/stats/collector"
@@ -354,6 +355,14 @@ func c03run(c *hx.Ctx, cs c03case) error {
 	if err != nil {
 		return err
 	}
+	// a fourth node that follows on the sync route (see below)
+	D, err := p.W.StartNode(nil, outIdx, true)
+	if err != nil {
+		return err
+	}
+	var dSync *appstate.AppState
+	var dBorn map[common.Address]bool
+	dAge := 0
 	propIdx := 0
 	handedOver := false
 	fail := func(sig, detail string, extra interface{}) {
@@ -667,6 +676,58 @@ func c03run(c *hx.Ctx, cs c03case) error {
 		if err := C.Add(cb); err != nil {
 			fail("C03:original-not-insertable", fmt.Sprintf("height %d on the third node: %v", blk.Height(), err), b)
 			return nil
+		}
+		// a fourth node follows on the route of a syncing node: batches of blocks on ONE long-lived check state
+		// (ForCheckWithOverwrite once, AddBlock(block, checkState) + FinalizePrecommit per block).  When a block of the batch
+		// changes who may propose (an identity-update block: status switch, kill, end of a validation), a node that could
+		// propose when the check state was created and cannot any more must be refused on that same check state.
+		{
+			if dSync == nil {
+				dBorn = map[common.Address]bool{A.Addr: eligibleOn(D, A.Addr), B.Addr: eligibleOn(D, B.Addr), C.Addr: eligibleOn(D, C.Addr)}
+				dAge = 0
+			}
+			db4, _ := chainfx.CloneBlock(blk)
+			var derr error
+			dSync, derr = D.AddSynced(db4, dSync)
+			if derr != nil {
+				fail("C03:original-not-insertable", fmt.Sprintf("height %d on the syncing node: %v", blk.Height(), derr), b)
+				return nil
+			}
+			dAge++
+			if dAge >= 2 && blk.Header.Flags().HasFlag(types.IdentityUpdate) {
+				for _, X := range []*chainfx.Node{A, B, C} {
+					if !dBorn[X.Addr] || eligibleOn(D, X.Addr) || X.Chain.Head.Hash() != D.Chain.Head.Hash() {
+						continue
+					}
+					chainfx.Advance(20 * time.Second)
+					op, perr := X.Propose()
+					if perr == nil && op != nil && op.Block != nil && !op.Block.IsEmpty() {
+						if ob, err := chainfx.CloneBlock(op.Block); err == nil {
+							var aerr error
+							func() {
+								defer func() {
+									if rec := recover(); rec != nil {
+										aerr = fmt.Errorf("panic: %v", rec)
+									}
+								}()
+								aerr = D.Chain.AddBlock(ob, dSync, collector.NewStatsCollector())
+							}()
+							c.Rep.Evaluations++
+							c.Hit("op:sync-route lost-eligibility")
+							if aerr == nil {
+								fail("C03:ineligible-proposer-accepted:sync-route", fmt.Sprintf("height %d: %s could propose when the syncing node's check state was created (%d blocks ago), lost that with the identity-update block %d, and its block was accepted on that check state", ob.Height(), X.Addr.Hex(), dAge, blk.Height()), b)
+								return nil
+							}
+						}
+					}
+					chainfx.Advance(-20 * time.Second)
+					dSync = nil // a check state that refused a block is thrown away, as the syncing node does
+					break
+				}
+			}
+			if dAge >= 9 {
+				dSync = nil
+			}
 		}
 		if cs.God && !handedOver && B.App.State.GodAddress() == C.Addr {
 			// the role moved: the third node proposes from now on, the old god's node is the one that may not
